@@ -444,6 +444,22 @@ def trigger(kind, site):
             return lambda: base().update_ids({'a': 'z', 'b': 'z'}, axis='observation', inplace=False)
         if kind == 'sampdup':
             return lambda: base().update_ids({'x': 'z', 'y': 'z'}, axis='sample', inplace=False)
+    if site == 'copy':
+        # the offending table exists already (built while everything was tolerated); copying it constructs a table
+        build = trigger(kind, 'constructor')
+        if build is None:
+            return None
+
+        def f():
+            import biom.err as err
+            old = err.geterr()
+            err.seterr(all='ignore')
+            try:
+                offending = build()
+            finally:
+                err.seterr(**old)
+            return offending.copy()
+        return f
     if site == 'collapse' and kind == 'empty':
         def f():
             t = base()
@@ -471,10 +487,11 @@ def nontrigger(site):
         'filter_inplace': lambda: base().filter(lambda v, i, md: True, axis='observation', inplace=True),
         'update_ids': lambda: base().update_ids({'a': 'z'}, axis='observation', strict=False, inplace=False),
         'collapse': lambda: base().collapse(lambda i, md: 'g', norm=False, axis='observation'),
+        'copy': lambda: base().copy(),
     }[site]
 
 
-SITES = ['constructor', 'filter_copy', 'filter_inplace', 'update_ids', 'collapse']
+SITES = ['constructor', 'filter_copy', 'filter_inplace', 'update_ids', 'collapse', 'copy']
 
 
 def reactions(chunk, acc):
@@ -616,6 +633,105 @@ def reactions2(chunk, acc):
     reset_world()
 
 
+# ----------------------------------------------------------------------------- the library's own use of the profile
+PROFILES = [{}, {'all': 'raise'}, {'empty': 'warn'}, {'empty': 'raise', 'obsdup': 'ignore'}, {'all': 'print'}]
+
+
+def library_calls():
+    """(name, thunk) of library calls - succeeding, failing and suspended ones: whatever the library does with the
+    profile for its own purposes, the caller's profile is the same before, in between and afterwards"""
+    from biom import Table
+    D = np.array([[1.0, 0.0, 2.0], [0.0, 0.0, 0.0], [3.0, 4.0, 0.0]])
+
+    def T():
+        return Table(D.copy(), ['a', 'b', 'c'], ['x', 'y', 'z'], [{'k': 1}, {'k': 2}, {'k': 1}], None)
+    calls = [
+        ('subsample', lambda: T().subsample(1)),
+        ('subsample-bad-axis', lambda: T().subsample(1, axis='samples')),
+        ('subsample-huge-n', lambda: T().subsample(10 ** 30)),
+        ('subsample-by-id', lambda: T().subsample(2, by_id=True)),
+        ('partition-list', lambda: list(T().partition(lambda i, md: i))),
+        ('partition-remove-empty', lambda: list(T().partition(lambda i, md: 'g', remove_empty=True))),
+        ('collapse', lambda: T().collapse(lambda i, md: 'g', norm=False)),
+        ('collapse-bad-function', lambda: T().collapse(lambda i, md: 1 / 0, norm=False)),
+        ('sort-unknown-id', lambda: T().sort_order(['x', 'nope', 'z'])),
+        ('filter-unknown-id', lambda: T().filter(['nope'], inplace=False)),
+        ('remove-empty', lambda: T().remove_empty(inplace=False)),
+        ('update-ids-missing', lambda: T().update_ids({'x': 'q'}, strict=True, inplace=False)),
+        ('merge', lambda: T().merge(T())),
+        ('concat-overlap', lambda: T().concat([T()])),
+        ('norm', lambda: T().norm(inplace=False)),
+        ('pa', lambda: T().pa(inplace=False)),
+        ('transform-bad-function', lambda: T().transform(lambda v, i, md: 1 / 0, inplace=False)),
+        ('to-json', lambda: T().to_json('verif')),
+        ('head', lambda: T().head(1, 1)),
+    ]
+    return calls, T
+
+
+def scoping(chunk, acc):
+    import biom.err as err
+    for pi, name in chunk:
+        reset_world()
+        prof = PROFILES[pi]
+        if prof:
+            err.seterr(**prof)
+        before = dict(err.geterr())
+        calls, T = library_calls()
+        case = {'profile': pi, 'call': name}
+        acc.trans += 1
+        acc.evals += 1
+        if name == 'partition-lazy':
+            # a generator that is suspended between its parts: the caller's profile is in force in between, and a
+            # change the caller makes in between is not undone when the generator ends
+            seen = []
+            with warnings.catch_warnings():
+                warnings.simplefilter('ignore')
+                buf = io.StringIO()
+                with mock.patch.object(err, 'stdout', buf):
+                    try:
+                        g1 = T().partition(lambda i, md: i)
+                        g2 = T().partition(lambda i, md: i, axis='observation', remove_empty=True)
+                        next(g1)
+                        seen.append(dict(err.geterr()))
+                        next(g2)
+                        seen.append(dict(err.geterr()))
+                        err.seterr(sampdup='print')
+                        before = dict(err.geterr())
+                        for _ in g1:
+                            seen.append(dict(err.geterr()))
+                        for _ in g2:
+                            pass
+                    except Exception as e:
+                        if not isinstance(e, Exception):
+                            raise
+            seen.append(dict(err.geterr()))
+            wrong = [k for sn in seen[:2] for k in sn if sn[k] != dict(before, sampdup=sn['sampdup'])[k]] + \
+                [k for sn in seen[2:] for k in sn if sn[k] != before[k]]
+        else:
+            thunk = dict(calls)[name]
+            with warnings.catch_warnings():
+                warnings.simplefilter('ignore')
+                buf = io.StringIO()
+                with mock.patch.object(err, 'stdout', buf):
+                    try:
+                        thunk()
+                        acc.count('scoping:call-succeeded')
+                    except Exception:
+                        acc.count('scoping:call-raised')
+            after = dict(err.geterr())
+            wrong = [k for k in after if after[k] != before[k]]
+        if wrong:
+            acc.violation('profile:changed-by-library-call', 'the profile differs in %r after / during the library call '
+                          '%s under profile %r' % (sorted(set(wrong)), name, prof), case)
+        else:
+            acc.count('clause:profile-unchanged-by-library-call')
+            acc.states.add(h64(('scoping', pi, name)))
+            acc.nontrivial.add(h64(('scoping', pi, name)))
+        acc.traces += 1
+    reset_world()
+
+
 # ----------------------------------------------------------------------------- errcheck site with probe tables
 def run(run):
     setup()
@@ -630,12 +746,15 @@ def run(run):
     cases += [(k, r, 'constructor', True) for k in ('obsmdsize-empty', 'sampmdsize-empty') for r in REACTIONS]
     run.pmap(reactions, cases, nchunks=16)
     run.pmap(reactions2, [(k1, k2, r1, r2) for k1, k2 in PAIRS for r1 in REACTIONS for r2 in REACTIONS], nchunks=16)
+    names = [n for n, _ in library_calls()[0]] + ['partition-lazy']
+    run.pmap(scoping, [(pi, n) for pi in range(len(PROFILES)) for n in names], nchunks=16)
     run.extra['alphabet'] = [list(o) for o in FULL_ALPHABET]
     run.extra['enter_args'] = ENTER_ARGS
     run.extra['max_nesting'] = MAXNEST
     vacuity(run, ['op:' + o for o in ('seterr', 'seterr_all', 'bad', 'seterrcall', 'trigger', 'enter', 'exit', 'exit_exc',
                                  'exit_base', 'create', 'enter_pending')] +
-            ['clause:reaction:' + r for r in REACTIONS] + ['site:' + s for s in SITES] + ['clause:reaction:two-kinds'])
+            ['clause:reaction:' + r for r in REACTIONS] + ['site:' + s for s in SITES] + ['clause:reaction:two-kinds', 'clause:profile-unchanged-by-library-call',
+                                         'scoping:call-raised', 'scoping:call-succeeded'])
     reset_world()
     run.assumptions += ['errstate context managers are driven by hand (__enter__/__exit__), leaving by exception is '
                         'cm.__exit__(Boom, exc, None)', "the 'print' reaction is observed through biom.err.stdout "
@@ -662,7 +781,9 @@ def replay(case):
         return found
     from ..core import Acc
     acc = Acc()
-    if 'kinds' in case:
+    if 'call' in case:
+        scoping([(case['profile'], case['call'])], acc)
+    elif 'kinds' in case:
         reactions2([tuple(case['kinds']) + tuple(case['reactions'])], acc)
     else:
         reactions([(case['kind'], case['reaction'], case['site'], case['triggering'])], acc)
